@@ -20,11 +20,13 @@ import (
 //   - faithful: for accepted inputs, printX(tree Go built) == canonical form of the input's own
 //     token sequence (Print.lean; "exactly what was written, in source order, independent of
 //     ignored tokens" as one equation);
+//   - the print of the tree is itself a sentence in canonical form (canonq/canons of the print is
+//     the print: theorems C05_print_canonical / C06_print_canonical on real trees);
 //   - the parser MODEL agrees with the real parser (CorrParseReqs), so theorems about the model
 //     speak about the code.
 //
 // Signatures: parser-accepts-underivable:<class>, parser-rejects-derivable:<class>,
-// tree-not-faithful:<class>, ignored-tokens-change-result:<class>. <class> names the known
+// tree-not-faithful:<class>, print-not-canonical:<class>, ignored-tokens-change-result:<class>. <class> names the known
 // deviation that explains the case: the class is only awarded when removing its trigger (and the
 // triggers of the other known classes) from the token sequence makes parser and grammar agree;
 // otherwise the class is `other`.
@@ -372,6 +374,7 @@ type gverdict struct {
 	real     string // observation of the real parser (pq/ps -1)
 	canon    string // canonical token list, "0", "LEXERR"
 	unparsed string // print of the Go tree ("" when not accepted or not derivable)
+	recanon  string // canonical form of the print, computed from the print as a token list
 }
 
 func (v gverdict) accepted() bool  { return strings.HasPrefix(v.real, "(") }
@@ -386,6 +389,8 @@ func (v gverdict) problem() string {
 		return "parser-rejects-derivable"
 	case v.accepted() && v.unparsed != v.canon:
 		return "tree-not-faithful"
+	case v.accepted() && v.recanon != v.unparsed:
+		return "print-not-canonical" // the print of the tree is not a sentence, or not in canonical form
 	}
 	return ""
 }
@@ -414,8 +419,18 @@ func (c *Ctx) grammarVerdicts(grammar, space string, inputs [][]byte) []gverdict
 			uidx = append(uidx, i)
 		}
 	}
-	for k, u := range c.Driver.Map(ureqs) {
+	recanonOp := "canonq "
+	if grammar == "schema" {
+		recanonOp = "canons "
+	}
+	us := c.Driver.Map(ureqs)
+	rreqs := make([]string, len(us))
+	for k, u := range us {
 		out[uidx[k]].unparsed = u
+		rreqs[k] = recanonOp + u
+	}
+	for k, r := range c.Driver.Map(rreqs) {
+		out[uidx[k]].recanon = r
 	}
 	return out
 }
@@ -617,7 +632,7 @@ var grammarProbesQuery = []string{
 }
 
 var grammarProbesSchema = []string{
-	``, ` `, "#c", `type Foo "implements" Bar { a: Int }`, `type Foo """implements""" Bar { a: Int }`, `interface Foo "implements" Bar { a: Int }`, `type Foo implements Bar { a: Int }`,
+	``, ` `, "#c", `schema`, `schema @d`, `type Foo "implements" Bar { a: Int }`, `type Foo """implements""" Bar { a: Int }`, `interface Foo "implements" Bar { a: Int }`, `type Foo implements Bar { a: Int }`,
 	`extend type Foo "implements" Bar`, `type a "implements" type b`, `type a "implements" type schema`, `interface a """implements""" scalar S`, `schema @schema @schema`, `extend interface Foo implements Bar`, `extend interface Foo implements Bar & Baz @d { a: Int }`, `extend interface Foo implements & Bar`, `extend type Foo implements Bar`,
 	`extend interface Foo @d`, `extend interface Foo { a: Int }`, `extend interface Foo`, `"" extend type Foo { a: Int }`, `"""""" extend type Foo { a: Int }`, `"d" extend type Foo { a: Int }`, `"" type Foo { a: Int }`, `"" extend schema @d`,
 	`extend input Foo @d(x: $v)`, `extend input Foo @d(x: [$v])`, `extend input Foo @d(x: v)`, `extend input Foo @d(x: $v) { a: Int }`, `input Foo @d(x: $v) { a: Int }`, `extend type Foo @d(x: $v)`, `extend input Foo { a: Int = $v }`, `extend input Foo { a: Int @d(x: $v) }`,
